@@ -341,7 +341,7 @@ where
     P: Prefix + PartialEq,
 {
     fn eq(&self, other: &Self) -> bool {
-        self.iter().zip(other.iter()).all(|(a, b)| a == b)
+        self.iter().eq(other.iter())
     }
 }
 
